@@ -37,8 +37,8 @@ func propC09(a *Analysis, r *Registry) {
 		b.guard(rB, "stats.(*Sample).Sort", func() {
 			fc := X.FCFor(fn)
 			env := X.EnvFor(fn, "s")
-			b.Eq("C-swap", "stats.(*Sample).Sort/sorter.xs", b.pos(fn), fc.LitField("sampleSorter", "xs"), env, "s.Xs")
-			b.Eq("C-swap", "stats.(*Sample).Sort/sorter.weights", b.pos(fn), fc.LitField("sampleSorter", "weights"), env, "s.Weights")
+			b.Eq("C-swap", "stats.(*Sample).Sort/sorter.xs", b.pos(fn), fc.LitFieldAny("sampleSorter", "xs"), env, "s.Xs")
+			b.Eq("C-swap", "stats.(*Sample).Sort/sorter.weights", b.pos(fn), fc.LitFieldAny("sampleSorter", "weights"), env, "s.Weights")
 			b.EqRF(rB, "stats.(*Sample).Sort/Sorted", b.pos(fn), fc.FieldAtExit(0, "Sorted"), S.True(), "Sorted is set on every path")
 			b.EqRF(rB, "stats.(*Sample).Sort/returns-receiver", b.pos(fn), fc.RetVal(0), env.Vars["s"].RF, "returns s")
 		})
